@@ -34,6 +34,7 @@ func isGlobalLoad(v ssa.Value, name string) bool {
 
 // policyModel: base policy functions (wrap ErrPolicyDenied directly) and the enforcing closure over callers.
 type policyModel struct {
+	ctors map[*ssa.Function]bool // denial constructors (single-block functions returning Errorf("%w…", ErrPolicyDenied, …))
 	base      map[*ssa.Function]bool
 	enforcing map[*ssa.Function]bool
 }
@@ -41,16 +42,45 @@ type policyModel struct {
 func (p *Program) policyModel() *policyModel {
 	m := &policyModel{base: map[*ssa.Function]bool{}, enforcing: map[*ssa.Function]bool{}}
 	fns := p.FuncsInPkg("dispatcher")
-	for _, fn := range fns {
-		for _, ci := range allCalls(fn, func(ci ssa.CallInstruction) bool { return calleeIs(ci, "fmt", "", "Errorf") }) {
-			if elems, ok := varargElems(ci.Common().Args[1]); ok {
-				for _, e := range elems {
-					if isGlobalLoad(e, "ErrPolicyDenied") {
-						m.base[fn] = true
-						m.enforcing[fn] = true
-					}
+	wrapsSentinel := func(ci ssa.CallInstruction) bool {
+		if elems, ok := errorfElems(ci); ok {
+			for _, e := range elems {
+				if isGlobalLoad(e, "ErrPolicyDenied") {
+					return true
 				}
 			}
+		}
+		return false
+	}
+	// denial constructors: functions returning only an error, every return of which is such an Errorf
+	ctors := map[*ssa.Function]bool{}
+	for _, fn := range fns {
+		rs := fn.Signature.Results()
+		if rs.Len() != 1 || !types.Identical(rs.At(0).Type(), types.Universe.Lookup("error").Type()) {
+			continue
+		}
+		all, n := true, 0
+		for _, r := range returnsOf(fn) {
+			n++
+			call, ok := r.Results[0].(*ssa.Call)
+			if !ok || !calleeIs(call, "fmt", "", "Errorf") || !wrapsSentinel(call) {
+				all = false
+			}
+		}
+		if all && n > 0 && len(fn.Blocks) == 1 {
+			ctors[fn] = true
+		}
+	}
+	m.ctors = ctors
+	for _, fn := range fns {
+		if ctors[fn] {
+			continue
+		}
+		direct := len(allCalls(fn, func(ci ssa.CallInstruction) bool { return calleeIs(ci, "fmt", "", "Errorf") && wrapsSentinel(ci) })) > 0
+		viaCtor := len(allCalls(fn, func(ci ssa.CallInstruction) bool { return ctors[ci.Common().StaticCallee()] })) > 0
+		if direct || viaCtor {
+			m.base[fn] = true
+			m.enforcing[fn] = true
 		}
 	}
 	changed := true
@@ -226,15 +256,28 @@ func checkC16(c *Ctx) {
 					c.Ok("C16.R2", key, p.Pos(t.Pos()), "never follows a redirect (always ErrUseLastResponse)")
 					continue
 				}
+				t := p.ViewKeeping(t, func(callee *ssa.Function) bool { return pm.enforcing[callee] })
 				calls := allCalls(t, func(ci ssa.CallInstruction) bool {
 					f := ci.Common().StaticCallee()
 					return f != nil && pm.enforcing[f]
 				})
 				okE, _, _ := GuardEdges(t, calls, ErrNil)
-				okHop := len(okE) > 0
+				okHop := len(calls) > 0
 				for _, r := range returnsOf(t) {
-					if errResultKind(r) == "nil" {
-						if okp, _ := p.MustPass(t, r, okE); !okp {
+					// the policy verdict returned as it is: nil exactly when the policy allowed the hop
+					direct := false
+					if o, _ := origin(r.Results[len(r.Results)-1]); o != nil {
+						for _, cc := range calls {
+							if cv, ok := cc.(ssa.Value); ok && cv == o {
+								direct = true
+							}
+						}
+					}
+					if direct {
+						continue
+					}
+					if k := errResultKind(r); k == "nil" || k == "maybe" {
+						if okp, _ := p.MustPass(t, r, okE); !okp || len(okE) == 0 {
 							okHop = false
 						}
 					}
@@ -494,7 +537,7 @@ func edgesLeadToDenial(es []Edge) bool {
 		for b := range par {
 			for _, ins := range b.Instrs {
 				if ci, ok := ins.(ssa.CallInstruction); ok && calleeIs(ci, "fmt", "", "Errorf") {
-					if elems, ok := varargElems(ci.Common().Args[1]); ok {
+					if elems, ok := errorfElems(ci); ok {
 						for _, el := range elems {
 							if isGlobalLoad(el, "ErrPolicyDenied") {
 								return true
@@ -660,10 +703,20 @@ func checkSentinelPreserved(c *Ctx, rule string, pm *policyModel) {
 		n += 0
 	}
 	// every denial in the base functions uses %w for the sentinel
-	for fn := range pm.base {
-		for _, ef := range allCalls(fn, func(ci ssa.CallInstruction) bool { return calleeIs(ci, "fmt", "", "Errorf") }) {
-			format, _ := constString(ef.Common().Args[0])
-			elems, _ := varargElems(ef.Common().Args[1])
+	seenErrorf := map[ssa.Instruction]bool{}
+	for _, fn := range sortedFuncs(pm.base) {
+		fv := fn
+		if fn.Parent() == nil {
+			fv = p.View(fn)
+		}
+		for _, ef := range allCalls(fv, func(ci ssa.CallInstruction) bool { return calleeIs(ci, "fmt", "", "Errorf") }) {
+			if src := p.SourceInstr(ef); seenErrorf[src] && len(p.InlinedFrom(ef)) > 0 {
+				// the same constructor expanded at another site: count the site, the verb has been checked
+			} else {
+				seenErrorf[src] = true
+			}
+			format := formatPrefix(ef.Common().Args[0])
+			elems, _ := errorfElems(ef)
 			verbs := formatVerbs(format)
 			for i, e := range elems {
 				if isGlobalLoad(e, "ErrPolicyDenied") {
@@ -773,6 +826,14 @@ func checkErrChainPreserved(c *Ctx, rule string) {
 				}
 				elems, ok := varargElems(x.Call.Args[1])
 				if !ok {
+					// append(head, rest...) where rest is the enclosing constructor's variadic parameter and no call
+					// site passes an error in it: the head is the whole story
+					if head, okH := errorfElems(x); okH && variadicTailCarriesNoError(p, x) {
+						elems, ok = head, true
+						format = formatPrefix(x.Call.Args[0])
+					}
+				}
+				if !ok {
 					return false, "fmt.Errorf with a non-literal argument list at " + p.InstrPos(x)
 				}
 				verbs := formatVerbs(format)
@@ -848,4 +909,91 @@ func checkErrChainPreserved(c *Ctx, rule string) {
 		}
 	}
 	c.Floor(rule, "stores to Result.Err", n, 3)
+}
+
+// errorfElems: the leading variadic operands of a fmt.Errorf call that are known — a literal list, or the literal
+// head of append(head, rest...).
+func errorfElems(ef ssa.CallInstruction) ([]ssa.Value, bool) {
+	if len(ef.Common().Args) < 2 {
+		return nil, false
+	}
+	arg := ef.Common().Args[1]
+	if elems, ok := varargElems(arg); ok {
+		return elems, true
+	}
+	if call, ok := arg.(*ssa.Call); ok {
+		if bi, ok := call.Call.Value.(*ssa.Builtin); ok && bi.Name() == "append" && len(call.Call.Args) >= 1 {
+			if elems, ok := varargElems(call.Call.Args[0]); ok {
+				return elems, true
+			}
+		}
+	}
+	return nil, false
+}
+
+// formatPrefix: the constant text a format string is known to start with ("%w: " + reason → "%w: ").
+func formatPrefix(v ssa.Value) string {
+	if sv, ok := constString(v); ok {
+		return sv
+	}
+	if bo, ok := v.(*ssa.BinOp); ok && bo.Op == token.ADD {
+		left := formatPrefix(bo.X)
+		if _, isConst := bo.X.(*ssa.Const); isConst {
+			return left + formatPrefix(bo.Y)
+		}
+		return left
+	}
+	return ""
+}
+
+// variadicTailCarriesNoError: x is fmt.Errorf(f, append(head, tail...)...) where tail is the variadic parameter of
+// the enclosing function, and at every call site of that function the operands bound to it are a literal list
+// without error-typed values.
+func variadicTailCarriesNoError(p *Program, x *ssa.Call) bool {
+	app, ok := x.Call.Args[1].(*ssa.Call)
+	if !ok || len(app.Call.Args) != 2 {
+		return false
+	}
+	prm, ok := app.Call.Args[1].(*ssa.Parameter)
+	if !ok {
+		return false
+	}
+	fn := p.Orig(x.Parent())
+	idx := -1
+	for i, q := range fn.Params {
+		if q == prm || q.Name() == prm.Name() && types.Identical(q.Type(), prm.Type()) {
+			idx = i
+		}
+	}
+	if idx < 0 || !fn.Signature.Variadic() || idx != len(fn.Params)-1 {
+		return false
+	}
+	errT := types.Universe.Lookup("error").Type()
+	sites := p.CallSitesOf(fn)
+	if len(sites) == 0 {
+		return false
+	}
+	for _, cs := range sites {
+		args := cs.Common().Args
+		if idx >= len(args) {
+			return false
+		}
+		if cst, isC := args[idx].(*ssa.Const); isC && cst.Value == nil {
+			continue // no variadic operands
+		}
+		elems, ok := varargElems(args[idx])
+		if !ok {
+			return false
+		}
+		for _, e := range elems {
+			inner := e
+			if mi, ok := e.(*ssa.MakeInterface); ok {
+				inner = mi.X
+			}
+			if types.Implements(inner.Type(), errT.Underlying().(*types.Interface)) {
+				return false
+			}
+		}
+	}
+	return true
 }
